@@ -468,109 +468,109 @@ func init() {
 		}
 		type cq struct{ q, opt string }
 		for pass := 0; pass < 2; pass++ {
-		for n := 0; n <= maxN; n++ {
-			base := c11Data(n)
-			if pass == 1 {
-				// second pass: a NaN member and an infinite member (no ties: one of each),
-				// all storage orders of up to 6 series
-				if n < 2 || n > 6 {
-					continue
-				}
-				base = c11SpecialData(n)
-			}
-			na := n
-			var perms [][]int
-			if na <= fullPerm || (pass == 1 && na <= 5) {
-				perms = permutations(na)
-			} else {
-				for r := 0; r < na; r += (na + 5) / 6 {
-					pm := make([]int, na)
-					for i := range pm {
-						pm[i] = (i + r) % na
+			for n := 0; n <= maxN; n++ {
+				base := c11Data(n)
+				if pass == 1 {
+					// second pass: a NaN member and an infinite member (no ties: one of each),
+					// all storage orders of up to 6 series
+					if n < 2 || n > 6 {
+						continue
 					}
-					perms = append(perms, pm)
+					base = c11SpecialData(n)
 				}
-				rev := make([]int, na)
-				for i := range rev {
-					rev[i] = na - 1 - i
+				na := n
+				var perms [][]int
+				if na <= fullPerm || (pass == 1 && na <= 5) {
+					perms = permutations(na)
+				} else {
+					for r := 0; r < na; r += (na + 5) / 6 {
+						pm := make([]int, na)
+						for i := range pm {
+							pm[i] = (i + r) % na
+						}
+						perms = append(perms, pm)
+					}
+					rev := make([]int, na)
+					for i := range rev {
+						rev[i] = na - 1 - i
+					}
+					perms = append(perms, rev)
 				}
-				perms = append(perms, rev)
-			}
-			var cqs []cq
-			for _, q := range c11Queries {
-				cqs = append(cqs, cq{q, "none"})
-			}
-			if pass == 1 {
-				cqs = nil
-				for _, q := range []string{`topk(2, a)`, `bottomk(2, a)`, `topk(3, a)`, `bottomk(1, a)`, `topk by (l) (1, a)`, `max(a)`, `min(a)`, `sum(a)`, `avg(a)`, `quantile(0.5, a)`, `max by (l) (a)`} {
+				var cqs []cq
+				for _, q := range c11Queries {
 					cqs = append(cqs, cq{q, "none"})
 				}
-			}
-			// with the default optimizers both operands share one merged select
-			cqs = append(cqs, cq{`a{l="0"} + a`, ""}, cq{`sum(a{l="1"}) / sum(a)`, ""}, cq{`a + on (m) group_left a{l="0"}`, ""})
-			// tied values: which series topk keeps (known finding F12)
-			if pass == 0 {
-				cqs = append(cqs, cq{`topk(1, a * 0)`, "none"}, cq{`bottomk by (l) (1, clamp_max(a, 1))`, "none"})
-			}
-			for _, qo := range cqs {
-				q := qo.q
-				ref := core.RunEngine(&core.Case{Q: q, Data: base, W: w, O: core.Opts{Optimizers: qo.opt, Procs: 2}}, storeFor(&core.Case{Data: base}))
-				for _, pm := range perms {
-					for _, withJunk := range []bool{false, true} {
-						data := make([]core.SeriesSpec, 0, len(base)+3)
-						for _, i := range pm {
-							data = append(data, base[i])
-						}
-						data = append(data, base[na:]...)
-						if withJunk {
-							data = append(append([]core.SeriesSpec{junk[0]}, data...), junk[1:]...)
-						}
-						for _, pr := range procs {
-							c.Rep.Transitions++
-							if !c.Mine() {
-								continue
+				if pass == 1 {
+					cqs = nil
+					for _, q := range []string{`topk(2, a)`, `bottomk(2, a)`, `topk(3, a)`, `bottomk(1, a)`, `topk by (l) (1, a)`, `max(a)`, `min(a)`, `sum(a)`, `avg(a)`, `quantile(0.5, a)`, `max by (l) (a)`} {
+						cqs = append(cqs, cq{q, "none"})
+					}
+				}
+				// with the default optimizers both operands share one merged select
+				cqs = append(cqs, cq{`a{l="0"} + a`, ""}, cq{`sum(a{l="1"}) / sum(a)`, ""}, cq{`a + on (m) group_left a{l="0"}`, ""})
+				// tied values: which series topk keeps (known finding F12)
+				if pass == 0 {
+					cqs = append(cqs, cq{`topk(1, a * 0)`, "none"}, cq{`bottomk by (l) (1, clamp_max(a, 1))`, "none"})
+				}
+				for _, qo := range cqs {
+					q := qo.q
+					ref := core.RunEngine(&core.Case{Q: q, Data: base, W: w, O: core.Opts{Optimizers: qo.opt, Procs: 2}}, storeFor(&core.Case{Data: base}))
+					for _, pm := range perms {
+						for _, withJunk := range []bool{false, true} {
+							data := make([]core.SeriesSpec, 0, len(base)+3)
+							for _, i := range pm {
+								data = append(data, base[i])
 							}
-							if c.Expired() {
-								return
+							data = append(data, base[na:]...)
+							if withJunk {
+								data = append(append([]core.SeriesSpec{junk[0]}, data...), junk[1:]...)
 							}
-							cs := &core.Case{Q: q, Data: data, W: w, O: core.Opts{Optimizers: qo.opt, Procs: pr}, Note: fmt.Sprintf("n=%d perm=%v junk=%v", n, pm, withJunk)}
-							if strings.Contains(q, "a * 0") || strings.Contains(q, "clamp_max(a, 1)") {
-								cs.Note += " feat:k-tie"
-							}
-							if !c.Progress(cs) {
-								continue
-							}
-							st, _ := core.BuildStore(data)
-							sym, det := "", ""
-							for rep := 0; rep < 2 && sym == ""; rep++ {
-								o := core.RunEngine(cs, st)
-								c.Rep.Evaluations++
-								c.Rep.Traces++
-								if s, d := engineSymptom(o); s != "" {
-									sym, det = s, d
-								} else if s, d := core.Diff(ref.Res, o.Res, false); s != "" {
-									sym, det = "config:"+s, fmt.Sprintf("GOMAXPROCS=%d, storage order %v, junk=%v (repetition %d) vs GOMAXPROCS=2, identity order: %s", pr, pm, withJunk, rep, d)
+							for _, pr := range procs {
+								c.Rep.Transitions++
+								if !c.Mine() {
+									continue
 								}
+								if c.Expired() {
+									return
+								}
+								cs := &core.Case{Q: q, Data: data, W: w, O: core.Opts{Optimizers: qo.opt, Procs: pr}, Note: fmt.Sprintf("n=%d perm=%v junk=%v", n, pm, withJunk)}
+								if strings.Contains(q, "a * 0") || strings.Contains(q, "clamp_max(a, 1)") {
+									cs.Note += " feat:k-tie"
+								}
+								if !c.Progress(cs) {
+									continue
+								}
+								st, _ := core.BuildStore(data)
+								sym, det := "", ""
+								for rep := 0; rep < 2 && sym == ""; rep++ {
+									o := core.RunEngine(cs, st)
+									c.Rep.Evaluations++
+									c.Rep.Traces++
+									if s, d := engineSymptom(o); s != "" {
+										sym, det = s, d
+									} else if s, d := core.Diff(ref.Res, o.Res, false); s != "" {
+										sym, det = "config:"+s, fmt.Sprintf("GOMAXPROCS=%d, storage order %v, junk=%v (repetition %d) vs GOMAXPROCS=2, identity order: %s", pr, pm, withJunk, rep, d)
+									}
+								}
+								c.Rep.States++
+								if ref.Res.NPoints() > 0 {
+									c.Rep.Nontrivial++
+								}
+								if c.Shard == 0 {
+									c.Sample(map[string]any{"q": q, "series": n, "gomaxprocs": pr, "storage_order": pm, "junk": withJunk})
+								}
+								if sym == "" {
+									c.Rep.Outcomes["enum:agree"]++
+									continue
+								}
+								c.Rep.Outcomes["enum:"+sym]++
+								cp := *cs
+								c.Fail(check.Failure{Prop: "C11", Kind: "enum", Sub: "C11/enum", Symptom: sym, Detail: det, Case: &cp})
 							}
-							c.Rep.States++
-							if ref.Res.NPoints() > 0 {
-								c.Rep.Nontrivial++
-							}
-							if c.Shard == 0 {
-								c.Sample(map[string]any{"q": q, "series": n, "gomaxprocs": pr, "storage_order": pm, "junk": withJunk})
-							}
-							if sym == "" {
-								c.Rep.Outcomes["enum:agree"]++
-								continue
-							}
-							c.Rep.Outcomes["enum:"+sym]++
-							cp := *cs
-							c.Fail(check.Failure{Prop: "C11", Kind: "enum", Sub: "C11/enum", Symptom: sym, Detail: det, Case: &cp})
 						}
 					}
 				}
 			}
-		}
 		}
 	})
 	check.Replayers["enum:C11/enum"] = func(f *check.Failure) (string, string) {
